@@ -12,6 +12,10 @@ Per cell (one test problem + one option combination) the check decides on the re
       offset and T T^T == the stated covariance (std^2 I, diag((std*exactData)^2), (||exactData||/SNR)^2 I);
   (d) model / data / likelihood / prior / posterior / get_components() refer to the same objects and
       posterior.logd(x) == reference Gaussian log-likelihood(stated noise) + prior.logd(x) on a point lattice.
+  (f) histories: after ONE operation of the public interface (MAP, ML, sample_posterior, sample_prior - also through the
+      MCMC fallback for priors that cannot be sampled directly -, UQ) on the live problem object, with the default prior
+      and with priors assigned through ``problem.prior = ...``, everything the problem hands out (data everywhere, model,
+      likelihood, prior, posterior evaluated on probe points) has the values it had before the operation.
 No statistical test is involved anywhere.
 """
 import hashlib
@@ -24,38 +28,80 @@ from vfw.stream import Stream
 from checks import _tp_refs as tp
 
 PROPERTY = "C17"
-RULE = ("cells = test problem x constructor options (sub-products listed in BOUND); each cell builds the problem "
-        "n+3 times under a scripted normal stream (zero, every basis vector, one generic vector; n = data size), "
-        "evaluates the forward model on the complete parameter basis (linear models) or a point lattice "
-        "(Poisson1D, WangCubic, mapped fields) and the posterior/likelihood/prior on a point lattice; a cell is "
-        "non-trivial when the problem was constructed, exactData is finite and not constant and (for noisy "
-        "problems) the stream was asked for exactly one normal vector")
+RULE = ("cells = test problem x constructor options (sub-products listed in BOUND; every keyword of every constructor "
+        "signature in cuqi/testproblem/_testproblem.py is given its default and at least one non-default value); each "
+        "*full* cell builds the problem n+3 times under a scripted normal stream (zero, every basis vector, one generic "
+        "vector; n = data size), each *light* cell (the option-class cells whose new facet is not a noise option) twice "
+        "(zero and one generic vector); every cell evaluates the forward model on the complete parameter basis (linear "
+        "models) or a point lattice (Poisson1D, WangCubic, mapped fields) and the posterior/likelihood/prior on a point "
+        "lattice; a cell is non-trivial when the problem was constructed, exactData is finite and not constant and (for "
+        "noisy problems) the stream was asked for exactly one normal vector")
 BOUND = {
     "quick": "Deconvolution1D: dim {7,8} x PSF {gauss,moffat,defocus,custom asymmetric} x PSF_size {3,4,dim} x 5 BCs x "
              "noise {gaussian,scaledgaussian} x noise_std {0.01,0.1} (phantom sinc, default prior); + 10 phantoms x dim "
              "{7,8} x 2 noise types x BC {periodic,zero}; + 4 priors x 2 noise types x dim {7,8} x BC {periodic,mirror}; "
-             "+ legacy form dim 8 x 4 PSFs x 2 noise types.  Deconvolution2D: dim {5,6} x 4 PSFs x PSF_size {3,4} x 5 "
-             "BCs x 2 noise types (+ 2 priors x 2 noise types).  Heat1D: dim {5,8} x field {none,KL,KL-3 modes,Step} x "
-             "map {none,exp} x observation map {none,sub-grid} x SNR {200,50}.  Poisson1D: dim {5,8} x 4 fields x "
-             "observation map x SNR.  Abel1D: dim {4,7} x 4 fields x SNR {100,20}.  WangCubic: noise_std x data x prior.",
+             "+ legacy form dim 8 x 4 PSFs x 2 noise types; + light option classes: PSF_size {default(None), dim+1, dim+2, "
+             "2dim+1} x 4 PSFs (custom: array of that length) x 5 BCs x PSF_param {base, 4 x base} x dim {7,8}; "
+             "PSF_param 4 x base x PSF_size {3,4,dim}; PSF_param default x PSF_size {3,default,dim+1} x 3 PSFs x 5 BCs; "
+             "default phantom_param x 9 phantoms; + full cells with the docstring spellings of PSF / BC / noise_type / "
+             "phantom (4 PSFs x 5 BCs x 2 noise types).  Deconvolution2D: dim {5,6} x 4 PSFs x PSF_size {3,4} x 5 BCs x 2 "
+             "noise types (+ 2 priors x 2 noise types); + light: dim 5 x 4 PSFs x PSF_size {dim, dim+1, dim+2, default 21 "
+             "with default PSF_param 2.56} x 5 BCs; PSF_param 4 x base and default x PSF_size {3,4}; phantom {default "
+             "'satellite', 'camera', array of another size}; + docstring spellings 3 PSFs x 5 BCs.  Heat1D: dim {5,8} x "
+             "field {none,KL,KL-3 modes,Step} x map {none,exp} x observation map {none,sub-grid} x SNR {200,50}; + light: "
+             "(endpoint,max_time) in {(2.,.25),(2.,.5),(.5,.05),(.5,.1),(1.,.25),(int 2,.25)} x field {none,KL,Step} x "
+             "observation map {none, by index, by location}; field {KL-3, Step default n_steps, KL_Full default / params, "
+             "CustomKL params, Geometry objects StepExpansion / Continuous1D} x map {none, exp+imap, x^2+.5 without imap} "
+             "(endpoint 1; map none also endpoint 2); user exactSolution x 3 fields x 2 maps.  Poisson1D: dim {5,8} x 4 fields x observation map "
+             "x SNR; + light: endpoint {2., .5, int 2} x source {custom, default, linear} x 3 observation maps x field "
+             "{none,Step} (int 2: none); 9 field/map variants x endpoint {1,2}; user exactSolution.  Abel1D: dim {4,7} x 4 fields x SNR "
+             "{100,20}; + endpoint {2., .5, int 2, 1.} x 11 field/map variants.  WangCubic: noise_std {1,.5,2.} x data x prior.  "
+             "Histories (one operation on the live object, components before == after): 7 problems (Deconvolution1D dim 8, "
+             "legacy dim 8, Deconvolution2D dim 4, Heat1D / Poisson1D / Abel1D dim 5, WangCubic) x default prior x {MAP, ML, "
+             "sample_posterior(20), sample_prior(20)} (+ UQ(20) for Deconvolution1D, Abel1D, WangCubic); x assigned LMRF / "
+             "CMRF prior x sample_prior (MCMC fallback); assigned non-zero-mean Gaussian prior x {MAP, sample_posterior} "
+             "for Deconvolution1D / Abel1D.",
     "thorough": "Deconvolution1D full product dim {7,8,16} x 4 PSFs x PSF_size {3,4,5,dim} x 5 BCs x 10 phantoms x 2 "
                 "noise types x 2 noise_std, + 4 priors x 2 noise types x 2 std x 3 dims x 5 BCs x {gauss,custom}; legacy "
-                "dims {8,16}; Deconvolution2D dim {5,6,8} x 4 PSFs x PSF_size {3,4,5} x 5 BCs x 2 noise types x 2 "
-                "noise_std x 2 phantoms; PDE problems and Abel1D as quick with dims {5,8,12} / {4,7,12}",
+                "dims {8,16}; light option classes as quick with dims {7,8,16}, PSF_size {default, dim+1, dim+2, dim+3, "
+                "2dim, 2dim+1, 3dim, 3dim+1} and both noise types; Deconvolution2D dim {5,6,8} x 4 PSFs x PSF_size "
+                "{3,4,5} x 5 BCs x 2 noise types x 2 noise_std x 2 phantoms, light classes for dims {5,6}; PDE problems "
+                "and Abel1D as quick with dims {5,8,12} / {4,7,12}; histories: full product 7 problems x prior {default, "
+                "assigned Gaussian, LMRF, CMRF} x {MAP, ML, sample_posterior, sample_prior, UQ}",
 }
 ASSUMPTIONS = [
     "documented PSFs are read as: Gaussian exp(-x^2/(2 s^2)), Moffat (1+x^2/s^2)^-1, out-of-focus = indicator of the disc "
-    "|x| <= R, sampled at integer offsets from the convolution centre size//2 and normalised to unit sum",
+    "|x| <= R, sampled at integer offsets from the convolution centre size//2 and normalised to unit sum; PSF_size is "
+    "the number of samples whatever its relation to dim (a PSF longer than the signal folds back through the boundary "
+    "rule: the index formulas of the reference are periodic in the documented extension)",
     "boundary rules are the scipy.ndimage mode semantics the docstring points to (zero=constant, periodic=wrap, mirror, "
     "reflect, nearest); Deconvolution2D 'Neumann (reflective)' = reflection about the edge, 'Mirror' = about the last "
     "pixel centre; the index formulas are cross-checked once per run against scipy.ndimage (self-test)",
     "SNR noise level: sigma = ||exactData||/SNR and ||exactData||/(sqrt(m) SNR) are both accepted (the docstring only "
-    "says 'signal-to-noise ratio'); Poisson1D mesh width: endpoint/N and endpoint/(N+1) are both accepted",
-    "time steps, solution/observation grids of the PDE problems are taken from the constructed problem (their values are "
-    "not documented); the solve itself is an independent dense reference",
+    "says 'signal-to-noise ratio'); Poisson1D mesh width: endpoint/N and endpoint/(N+1) are both accepted; the nodes "
+    "on which the Poisson source term is evaluated (observed through a recording source function) may be any of three "
+    "readings of 'interior nodes' but must be the solution grid the problem hands out",
+    "time steps of Heat1D are taken from the constructed problem (their number is not documented) but must run from 0 "
+    "to max_time; the solution grid must be the dim interior nodes of (0, endpoint); the solve itself is an independent "
+    "dense reference",
+    "Abel1D: midpoint quadrature of int_0^s f(t)/sqrt(s-t) dt on [0, endpoint] with dim cells (h = endpoint/dim)",
+    "field parameterisations from the geometry docstrings (KLExpansion, KLExpansion_Full - its default cor_len / nu are "
+    "accepted in the reading of the signature and of the docstring -, StepExpansion); CustomKL has no closed form: the "
+    "reference is the parameterisation of an independently constructed cuqi.geometry.CustomKL(grid, **field_params) "
+    "(differential oracle for the wiring of grid and field_params, the geometry itself is not judged here)",
+    "default PSF_param (documented only as 'depends on PSF'): the operator must be the convolution with a member of the "
+    "documented PSF family for some parameter (solved from the two central taps); default phantom_param and named / "
+    "resized 2-D phantoms: pixel values undocumented, only size, exactData == model(exactSolution), noise and posterior "
+    "are decided",
+    "light cells decide the noise map on 0 and one generic normal vector only (elementwise +-sqrt(stated variance) * z); "
+    "the complete-basis identification of the noise map is done in the full cells over all noise options",
+    "a constructor that raises is counted as a refusal (not judged), except that the docstring spelling of an option value "
+    "must not be refused when its lower-case spelling is accepted",
     "the law of numpy's standard normal generator is the trusted base: the noise is decided through its affine image",
-    "default PSF/phantom parameters (undocumented values) are not swept: parameters are always passed explicitly",
-    "named 2-D phantoms (image files) are not swept; Deconvolution2D uses array phantoms",
+    "history cells run the operation with numpy's global generator as re-seeded by the runner (the values drawn are not "
+    "judged, only the problem's components before / after); an operation that raises counts as refused but must leave "
+    "the components unchanged as well; histories of length one only (plus the after-MAP probe of the full "
+    "Deconvolution1D cells)",
 ]
 
 PHANTOMS = ["gauss", "sinc", "vonmises", "square", "hat", "bumps", "derivgauss", "pc", "skyscraper", "array"]
@@ -120,7 +166,7 @@ def cells(tier, seed):
     #     PSF_param small / large / default, documented spellings, default phantom_param
     i = 0
     for dim in ((7, 8) if not T else (7, 8, 16)):
-        above = (dim + 1, dim + 2, 2 * dim + 1, 3 * dim) if not T else (dim + 1, dim + 2, dim + 3, 2 * dim, 2 * dim + 1,
+        above = (dim + 1, dim + 2, 2 * dim + 1) if not T else (dim + 1, dim + 2, dim + 3, 2 * dim, 2 * dim + 1,
                                                                          3 * dim, 3 * dim + 1)
         for psf in tp.PSF_NAMES:
             for size in (None,) + above:
@@ -136,7 +182,7 @@ def cells(tier, seed):
                 for bc in tp.BC_1D:
                     i += 1
                     d1(dim, psf, size, bc, noise=NOISE[i % 2], std=0.05, pmul=4, light=True)
-            for size in (3, 4, None, dim + 1):
+            for size in ((3, None, dim + 1) if not T else (3, 4, None, dim + 1)):
                 for bc in tp.BC_1D:
                     i += 1
                     d1(dim, psf, size, bc, noise=NOISE[i % 2], std=0.05, defpar=True, light=True)
@@ -230,7 +276,7 @@ def cells(tier, seed):
                     pde("heat", dim, field, obs, (200, 50)[i % 2], L=L, T=Tm)
         for field in ("KL-3", "Step-default", "KLFull", "KLFull-p", "CustomKL-p", "geom:Step3", "geom:C1D"):
             for mp in ("none", "exp", "sq"):
-                for L in (1.0, 2.0):
+                for L in ((1.0, 2.0) if (T or mp == "none") else (1.0,)):
                     i += 1
                     pde("heat", dim, field, "none", (200, 50)[i % 2], L=L, map=mp)
         for field in ("none", "KL", "Step"):
@@ -240,7 +286,7 @@ def cells(tier, seed):
         for L in (2.0, 0.5, 2):
             for src in ("custom", "default", "linear"):
                 for obs in ("none", "sub", "mask"):
-                    for field in ("none", "Step"):
+                    for field in (("none", "Step") if (T or L != 2) else ("none",)):
                         i += 1
                         pde("poisson", dim, field, obs, (200, 50)[i % 2], L=L, src=src)
         for field in ("KL-3+exp", "Step-default", "KLFull+exp", "KLFull-p+exp", "CustomKL-p+exp", "geom:Step3", "geom:C1D",
@@ -263,6 +309,16 @@ def cells(tier, seed):
                     continue
                 i += 1
                 out.append({"fam": "abel", "dim": dim, "field": field, "SNR": (100, 20)[i % 2], "L": L, "cat": k})
+    # --- histories: problem x prior (default / assigned) x ONE operation on the live object
+    for pk in USE_PROBLEMS:
+        for prk in USE_PRIORS:
+            for op in USE_OPS:
+                if not T and not (prk == "default" or (op == "sample_prior" and prk in ("lmrf", "cmrf")) or
+                                  (prk == "gaussian" and op in ("MAP", "sample_posterior") and pk in ("d1", "abel"))):
+                    continue
+                if op == "UQ" and not (T or pk in ("d1", "abel", "wang")):
+                    continue
+                out.append({"fam": "use", "prob": pk, "prior": prk, "op": op, "cat": k})
     for std in (1, 0.5, 2.0):
         for data in (None, 2.5, 0, 0.0, -1.5):      # incl. the falsy observations 0 / 0.0
             for pr in ("default", "gaussian"):
@@ -1215,6 +1271,164 @@ def eval_wang(res, cell):
     res.outcomes.add("wang:std=%s,data=%s,prior=%s" % (cell["std"], cell["data"], cell["prior"]))
 
 
+# ----------------------------------------------------------------------------------------
+# (f) histories: one operation on the live problem object, components handed out before == after
+# ----------------------------------------------------------------------------------------
+USE_PROBLEMS = ["d1", "d1leg", "d2", "heat", "poisson", "abel", "wang"]
+USE_PRIORS = ["default", "gaussian", "lmrf", "cmrf"]          # the last three assigned through  problem.prior = ...
+USE_OPS = ["MAP", "ML", "sample_posterior", "sample_prior", "UQ"]
+_USE_COMP = {"d1": "Deconvolution1D", "d1leg": "Deconvolution1D", "d2": "Deconvolution2D", "heat": "Heat1D",
+             "poisson": "Poisson1D", "abel": "Abel1D", "wang": "WangCubic"}
+
+
+def _use_setup(cell):
+    """-> (build, admissible noise-variance readings, positive parameters needed?)."""
+    import cuqi
+    k, pk = cell["cat"], cell["prob"]
+    T = cuqi.testproblem
+    if pk == "d1":
+        P = tp.custom_psf_1d(3, k)
+        return (lambda: T.Deconvolution1D(dim=8, PSF=P, BC="zero", phantom="sinc", phantom_param=2.0, noise_std=0.05),
+                lambda y: [np.full(y.size, 0.05 ** 2)], False)
+    if pk == "d1leg":
+        return (lambda: T.Deconvolution1D(dim=8, PSF="gauss", PSF_param=8.0, use_legacy=True, noise_std=0.05),
+                lambda y: [np.full(y.size, 0.05 ** 2)], False)
+    if pk == "d2":
+        P = tp.custom_psf_2d(3, k)
+        ph = refs.dyadic_vec(16, k + 1).reshape(4, 4)
+        return (lambda: T.Deconvolution2D(dim=4, PSF=P, BC="zero", phantom=ph, noise_std=0.05),
+                lambda y: [np.full(y.size, 0.05 ** 2)], False)
+    if pk == "heat":
+        return (lambda: T.Heat1D(dim=5, max_time=0.1, SNR=50), _snr_readings(50), False)
+    if pk == "poisson":
+        return (lambda: T.Poisson1D(dim=5, source=_source, SNR=50), _snr_readings(50), True)
+    if pk == "abel":
+        return (lambda: T.Abel1D(dim=5, SNR=50), _snr_readings(50), False)
+    raise ValueError(pk)
+
+
+def _use_prior(kind, prob, k):
+    import cuqi
+    n = int(prob.model.domain_dim)
+    g = prob.model.domain_geometry
+    name = prob.prior.name
+    if kind == "gaussian":      # non-zero mean, non-constant variances
+        return cuqi.distribution.Gaussian(1.0 + refs.dyadic_vec(n, k, scale=0.0625), 0.5 + 0.125 * np.arange(n), geometry=g, name=name)
+    if kind == "lmrf":          # cannot be sampled directly: sample_prior falls back to MCMC
+        return cuqi.distribution.LMRF(0, 0.5, bc_type="zero", geometry=g, name=name)
+    if kind == "cmrf":
+        return cuqi.distribution.CMRF(0, 0.5, bc_type="zero", geometry=g, name=name)
+    raise ValueError(kind)
+
+
+def _snapshot(prob, pts):
+    """Everything the problem hands out, as values (NaN where an evaluation raises)."""
+    def val(f):
+        try:
+            return _arr(f()).ravel().copy()
+        except HarnessError:
+            raise
+        except Exception as e:
+            return "raises:" + type(e).__name__
+    snap = {"data": val(lambda: prob.data), "likelihood.data": val(lambda: prob.likelihood.data),
+            "posterior.data": val(lambda: prob.posterior.data), "get_components-data": val(lambda: prob.get_components()[1])}
+    for attr in ("exactData", "exactSolution"):
+        if getattr(prob, attr, None) is not None:
+            snap[attr] = val(lambda: getattr(prob, attr))
+    for i, x in enumerate(pts):
+        snap["model.forward#%d" % i] = val(lambda: prob.model.forward(x))
+        snap["get_components-model#%d" % i] = val(lambda: prob.get_components()[0].forward(x))
+        snap["likelihood.logd#%d" % i] = val(lambda: prob.likelihood.logd(x))
+        snap["prior.logd#%d" % i] = val(lambda: prob.prior.logd(x))
+        snap["posterior.logd#%d" % i] = val(lambda: prob.posterior.logd(x))
+    ids = {"model": id(prob.model), "likelihood": id(prob.likelihood), "prior": id(prob.prior), "posterior": id(prob.posterior)}
+    return snap, ids
+
+
+def eval_use(res, cell):
+    """History cell: build a shipped problem, (optionally) assign a prior, decide (d) on it, run ONE operation of the
+    public interface on the live object, and demand that everything the problem hands out afterwards (data everywhere,
+    model, likelihood, prior, posterior evaluated on probe points) has the values it had before - hence the posterior
+    is still Gaussian log-likelihood of the stated noise + log-prior."""
+    import cuqi
+    k, pk, op, prk = cell["cat"], cell["prob"], cell["op"], cell["prior"]
+    comp = _USE_COMP[pk]
+    sig = "C17|%s|components-after-use|op=%s" % (comp, op if prk in ("default", "gaussian") else "%s,prior=%s" % (op, prk))
+    try:
+        if pk == "wang":
+            prob = cuqi.testproblem.WangCubic(noise_std=0.5, data=2.5)
+            var, positive = np.array([0.25]), False
+            res.transitions += 1
+        else:
+            build, readings, positive = _use_setup(cell)
+            prob, var = check_noise(res, comp, "use", build, readings, "noise=use", light=True)
+        if prk != "default":
+            prob.prior = _use_prior(prk, prob, k)
+            res.transitions += 1
+    except HarnessError:
+        raise
+    except Exception as e:
+        _refused(res, e)
+        return
+    res.state("built,prior=%s" % prk)
+    n = int(prob.model.domain_dim)
+    pts = [1.0 + np.abs(refs.dyadic_vec(n, k, scale=0.125)), 0.5 + np.abs(refs.dyadic_vec(n, k + 2, scale=0.25))]
+    if not positive:
+        pts = [refs.dyadic_vec(n, k, scale=0.125), pts[1]]
+    check_components(res, comp, prob, var, pts)          # the state before the operation is a correct one
+    before, ids0 = _snapshot(prob, pts)
+    res.transitions += 5 * len(pts)
+    res.state("snapshot")
+    try:
+        with contextlib.redirect_stdout(io.StringIO()):
+            if op == "MAP":
+                prob.MAP(disp=False)
+            elif op == "ML":
+                prob.ML(disp=False)
+            elif op == "sample_posterior":
+                prob.sample_posterior(20)
+            elif op == "sample_prior":
+                prob.sample_prior(20)
+            elif op == "UQ":
+                try:
+                    prob.UQ(Ns=20)
+                finally:
+                    import matplotlib.pyplot as plt
+                    plt.close("all")
+            else:
+                raise ValueError(op)
+        res.outcomes.add("op:%s:done" % op)
+    except HarnessError:
+        raise
+    except Exception as e:
+        # an operation may be unavailable for a prior / model (refusal) - it must still leave the problem alone
+        res.refused += 1
+        res.outcomes.add("op:%s:refused:%s" % (op, type(e).__name__))
+    res.transitions += 1
+    res.state("after:%s" % op)
+    after, ids1 = _snapshot(prob, pts)
+    res.transitions += 5 * len(pts)
+    changed = []
+    for key, a in before.items():
+        b = after[key]
+        res.evaluations += 1
+        same = (a == b) if isinstance(a, str) or isinstance(b, str) else close(a, b, 1e-10)
+        if not same:
+            changed.append(key)
+    if changed:
+        res.fail(sig, "after %s() on the live problem object the components it hands out changed: %s (e.g. %s: %r -> %r)"
+                 % (op, ", ".join(changed[:8]), changed[0], _short(before[changed[0]]), _short(after[changed[0]])))
+    else:
+        res.outcomes.add("after-use:unchanged")
+    res.outcomes.add("objects-kept:" + ",".join(sorted(kk for kk in ids0 if ids0[kk] == ids1[kk])))
+    # (values before == values after, and (d) was decided on the state before: (d) holds after the operation)
+    res.state("components-after")
+
+
+def _short(v):
+    return v if isinstance(v, str) else np.asarray(v).ravel()[:4].tolist()
+
+
 def eval_cell(cell):
     res = CellResult(cell)
     fam = cell["fam"]
@@ -1231,6 +1445,8 @@ def eval_cell(cell):
         eval_abel(res, cell)
     elif fam == "wang":
         eval_wang(res, cell)
+    elif fam == "use":
+        eval_use(res, cell)
     else:
         raise ValueError(fam)
     return res
